@@ -211,15 +211,17 @@ def _decide(ctx, traces):
     for i, clause in bad[:3]:
         ctx.violation("real batch construction rejected by TraceKPerSample at '%s': %s" % (clause, json.dumps(ok[i])[:500]),
                       {"kind": "raw", "trace": ok[i], "clause": clause})
-    walks = [t for t in ok if t.get("kind") == "walk" and t["steps"] and len(t["steps"][0]["allowed"]) >= 2]
+    walks = [t for t in ok if t.get("kind") == "walk" and t["steps"] and t["steps"][0]["ev"] == "select"
+             and len(t["steps"][0]["allowed"]) < len(t["sampleOf"])]
     if not bad and walks:
         from harness.tracecheck import selftest
 
         def corrupt(t):
-            t["steps"][0]["allowed"] = t["steps"][0]["allowed"][1:]
-            return "one plate removed from the logged result of the policy"
+            st0 = t["steps"][0]
+            st0["chosen"] = [p for p in range(len(t["sampleOf"])) if p not in st0["allowed"]][0]
+            return "the logged selection replaced by a plate the policy did not allow"
         selftest(ctx, "TraceKPerSample", walks[0], corrupt, decide=None, next_="TNext", init="TInit", constraint="TInvClauses",
-                 constants=dict(consts, Strict=True))
+                 constants=dict(consts, Strict=False))
     if ok:
         ctx.sample({"code_to_spec": ok[0]})
 
